@@ -165,6 +165,9 @@ type World struct {
 	// AssignOwner / CloudSeen are scratch state of the C10 oracle (owner key of an IP when it was assigned).
 	AssignOwner map[string]string
 	CloudSeen   int
+	// OpBound / LastPoolCount are scratch state of the C07 oracle.
+	OpBound       map[string]int
+	LastPoolCount int
 	// Aux is scratch space for harnesses (e.g. the observation log of a history).
 	Aux []interface{}
 	// Writers is the set of threads that performed store writes, bindings or provider calls.
@@ -1103,4 +1106,25 @@ func (r *RecProvider) UnAssignIP(in *rpc.UnAssignIPRequest) (*rpc.UnAssignIPRepl
 		delete(r.Assigned, in.IPAddress)
 	}
 	return &rpc.UnAssignIPReply{Success: true}, nil
+}
+
+// Preempt calls the plugin's Preempt for the pod with every node as a candidate.
+func (w *World) Preempt(key string) map[string]*schedulerapi.MetaVictims {
+	pod := w.Pods[key]
+	if pod == nil {
+		return nil
+	}
+	args := &schedulerapi.ExtenderPreemptionArgs{Pod: pod.DeepCopy(), NodeNameToMetaVictims: map[string]*schedulerapi.MetaVictims{}}
+	for _, n := range w.Cfg.Nodes {
+		args.NodeNameToMetaVictims[n.Name] = &schedulerapi.MetaVictims{}
+	}
+	return w.Plugin.Preempt(args)
+}
+
+// PoolSize returns the size of the Pool object in the API truth, or -1 if there is none.
+func (w *World) PoolSize(name string) int {
+	if p, ok := w.PoolObjs[name]; ok {
+		return p.Size
+	}
+	return -1
 }
